@@ -1,0 +1,82 @@
+//go:build verif
+
+package litestream
+
+import (
+	"context"
+	"os"
+
+	"github.com/superfly/ltx"
+)
+
+// This file is compiled only with the "verif" build tag. It exports thin
+// wrappers around unexported state so that an external verification harness
+// can observe and drive internal steps. It adds no behaviour.
+
+// VerifSyncState exposes the in-memory sync tracking fields.
+type VerifSyncState struct {
+	TruncatePassiveFailed bool
+	SyncedSinceCheckpoint bool
+	SyncedToWALEnd        bool
+	LastSyncedWALOffset   int64
+}
+
+// VerifSyncState returns a copy of the in-memory sync state.
+func (db *DB) VerifSyncState() VerifSyncState {
+	db.mu.RLock()
+	defer db.mu.RUnlock()
+	return VerifSyncState{
+		TruncatePassiveFailed: db.syncState.truncatePassiveFailed,
+		SyncedSinceCheckpoint: db.syncState.syncedSinceCheckpoint,
+		SyncedToWALEnd:        db.syncState.syncedToWALEnd,
+		LastSyncedWALOffset:   db.syncState.lastSyncedWALOffset,
+	}
+}
+
+// VerifHandles reports which long-lived handles are currently held.
+func (db *DB) VerifHandles() (sqlOpen, fileOpen, rtxHeld, opened bool) {
+	db.mu.RLock()
+	defer db.mu.RUnlock()
+	return db.db != nil, db.f != nil, db.rtx != nil, db.opened
+}
+
+// VerifAbandon drops every OS-level resource without the final sync that
+// Close performs. It approximates a process kill for in-process harnesses.
+func (db *DB) VerifAbandon() {
+	db.cancel()
+	db.wg.Wait()
+	if db.Replica != nil {
+		_ = db.Replica.Stop(true)
+	}
+	db.mu.Lock()
+	defer db.mu.Unlock()
+	if db.rtx != nil {
+		_ = rollback(db.rtx)
+		db.rtx = nil
+	}
+	if db.db != nil {
+		_ = db.db.Close()
+		db.db = nil
+	}
+	if db.f != nil {
+		_ = db.f.Close()
+		db.f = nil
+	}
+	db.opened = false
+}
+
+// VerifPageMap exposes pageMap with a byte budget.
+func (r *WALReader) VerifPageMap(ctx context.Context, maxBytes int64) (m map[uint32]int64, maxOffset int64, commit uint32, limited bool, err error) {
+	return r.pageMap(ctx, maxBytes)
+}
+
+// VerifSyncLimited runs the upload loop with a per-batch file limit, as the
+// replica monitor does.
+func (r *Replica) VerifSyncLimited(ctx context.Context, maxSyncLTXFiles int) error {
+	return r.sync(ctx, maxSyncLTXFiles)
+}
+
+// VerifApplyNewLTXFiles runs one follow-mode poll iteration.
+func (r *Replica) VerifApplyNewLTXFiles(ctx context.Context, f *os.File, afterTXID ltx.TXID, pageSize uint32) (ltx.TXID, error) {
+	return r.applyNewLTXFiles(ctx, f, afterTXID, pageSize)
+}
